@@ -481,7 +481,8 @@ deriving DecidableEq, Repr
 def sqlRowOf (id : Str) (created : Int64) (e : EKR) : SqlRow := ⟨id, created, encodeEKR e⟩
 def sqlRowDecode (r : SqlRow) : Option EKR := decodeEKR r.keyRecord
 
-/-! ## DynamoDB item (aws-v1 `dynamodbattribute` and aws-v2 `attributevalue` produce the same tree) -/
+/-! ## DynamoDB item (aws-v1 `dynamodbattribute` and aws-v2 `attributevalue` produce the same tree,
+except that v1 turns empty strings into NULL) -/
 
 inductive AV where
   | s (v : Str)
@@ -506,9 +507,27 @@ def ekrToAV (e : EKR) : AV :=
        | some m => [(nParentKeyMeta, keyMetaToAV m)]
        | none => []))
 
-/-- the whole item `Store` puts. -/
+/-- the whole item `Store` puts (aws-v2 plugin; `attributevalue` keeps an empty string as `S ""`). -/
 def itemToAV (id : Str) (created : Int64) (e : EKR) : AV :=
   .m [(nId, .s id), (nCreated, .n (intDigits created.toInt)), (nKeyRecord, ekrToAV e)]
+
+/-- aws-sdk-go v1's `dynamodbattribute` marshals an EMPTY string as NULL. -/
+def avS1 (s : Str) : AV := if s = [] then .null else .s s
+
+def keyMetaToAV1 (m : KeyMeta) : AV := .m [(nKeyId, avS1 m.id), (nCreated, .n (intDigits m.created.toInt))]
+
+/-- the `KeyRecord` attribute as the aws-v1 plugin writes it. -/
+def ekrToAV1 (e : EKR) : AV :=
+  .m ((if e.revoked then [(nRevoked, AV.bool true)] else []) ++
+      [(nCreated, .n (intDigits e.created.toInt)), (nKey, avS1 (b64Encode e.key))] ++
+      (match e.parent with
+       | some m => [(nParentKeyMeta, keyMetaToAV1 m)]
+       | none => []))
+
+/-- the whole item of the aws-v1 plugin: `Id`/`Created` are built by hand (`S`, `N`), only the
+`KeyRecord` map goes through the marshaler. -/
+def itemToAV1 (id : Str) (created : Int64) (e : EKR) : AV :=
+  .m [(nId, .s id), (nCreated, .n (intDigits created.toInt)), (nKeyRecord, ekrToAV1 e)]
 
 def avStr (kvs : List (Str × AV)) (k : Str) : Option Str :=
   match lookup k kvs with
